@@ -404,6 +404,9 @@ def _columns_loop(T, specs, ds, ms, maxcols, focuses=None, want_prop=True, cover
                                 "weighted_shown": wv,
                                 "exact_shares": [round(float(x), 3) for x in ideals],
                                 "deviation": round(float(dev), 3),
+                                # classification aids for known findings (see ref.stepwise_within_half)
+                                "weighted_count": len(wv),
+                                "stepwise_within_half": ref.columns_stepwise(base, case["dividechars"], case["min_width"], case["maxcol"], widths),
                                 "why": f"weighted columns {wv} got {[widths[i] for i in wv]}, exact shares {[round(float(x), 2) for x in ideals]}: off by {float(dev):.2f} > 1 column (min_width {case['min_width']} does not intervene: every share >= it)",
                                 "repro": _cols_repro(*[case[k] for k in ("specs", "dividechars", "min_width", "focus", "maxcol")]),
                             }
@@ -568,7 +571,14 @@ def build_pile(specs, focus=0):
         elif k == "packL":
             items.append(("pack", Flow(ch, rows=a)))
         elif k == "packF":
-            items.append(("pack", Fixed(ch, 3, a)))
+            # ORACLE CORRECTION (triage): the fixed child used to be 3 columns wide in a 5-column Pile.
+            # Pile.render() does not pad a fixed child that packs narrower than the Pile, so every such
+            # case ended in urwid's own "rendered (3 x r) canvas when passed size (5, r)" WidgetError -
+            # the canvas-size defect of DESIGN section 7-b, which is C01's clause ("the canvas has the
+            # requested size"), not C19's (how the rows are divided and what sizes the children are
+            # handed).  A fixed child exactly as wide as the Pile keeps every C19 clause of this check
+            # (rows = what pack(()) reports, child handed (), painted at the right rows) judgeable.
+            items.append(("pack", Fixed(ch, PILE_COLS, a)))
         else:
             raise ValueError(k)
     return urwid.Pile(items, focus_item=focus)
@@ -698,10 +708,10 @@ def _pile_task(args):
                     continue
                 if f == 0:
                     app, ok, dev, ideals, wv = ref.pile_proportional(base, own, mr, rows)
-                    T["pile-proportional"].case(ok, lambda: detail(clause="proportional") | {"deviation": round(float(dev), 3), "exact_shares": [round(float(x), 3) for x in ideals]}, app, case if app and mr == 11 else None, rank=(n, mr, wsum))
+                    T["pile-proportional"].case(ok, lambda: detail(clause="proportional") | {"deviation": round(float(dev), 3), "exact_shares": [round(float(x), 3) for x in ideals], "weighted_count": len(wv), "stepwise_within_half": ref.pile_stepwise(base, own, mr, rows)}, app, case if app and mr == 11 else None, rank=(n, mr, wsum))
                 if mr <= render_upto and n <= render_n:
                     fb, _fo = eval_pile(case, "fits")
-                    T["pile-fits-available"].case(not fb, lambda: detail(clause="fits"), sum(own[i] or 0 for i in range(n)) > mr, case if mr == 3 else None, rank=(n, mr, sum(a for _k, a in specs)))
+                    T["pile-fits-available"].case(not fb, lambda: detail(clause="fits") | {"fixed_rows": sum(own[i] or 0 for i in range(n))}, sum(own[i] or 0 for i in range(n)) > mr, case if mr == 3 else None, rank=(n, mr, sum(a for _k, a in specs)))
                     cb, _co = eval_pile(case, "children")
                     T["pile-children"].case(not cb, lambda: detail(clause="children"), True, case if mr == 6 else None, rank=(n, mr))
     CanvasCache.clear()
@@ -731,7 +741,7 @@ def _pile_weights_task(args):
             app, ok, dev, ideals, wv = ref.pile_proportional(specs, own, mr, rows)
             T["pile-proportional"].case(
                 ok,
-                lambda: case | {"rows": rows, "deviation": round(float(dev), 3), "exact_shares": [round(float(x), 3) for x in ideals], "why": f"weighted items got {rows}, exact shares {[round(float(x), 2) for x in ideals]}: off by {float(dev):.2f} > 1 row", "repro": _pile_repro(specs, 0, mr)},
+                lambda: case | {"rows": rows, "deviation": round(float(dev), 3), "exact_shares": [round(float(x), 3) for x in ideals], "weighted_count": len(wv), "stepwise_within_half": ref.pile_stepwise(specs, own, mr, rows), "why": f"weighted items got {rows}, exact shares {[round(float(x), 2) for x in ideals]}: off by {float(dev):.2f} > 1 row", "repro": _pile_repro(specs, 0, mr)},
                 app,
                 case if app and mr == 11 else None,
                 rank=(n, mr, sum(ws)),
@@ -1100,7 +1110,11 @@ def eval_overlay(case):
             rows = canvas_rows(canv)
             obs["canvas"] = rows
             rendered = [sz for op, ch, sz in LOG if op == "render" and ch == "T"]
-            if rendered != [tuple(tsize)]:
+            # ORACLE CORRECTION (triage): a top widget whose size has a zero dimension shows nothing, and
+            # the statement does not say that an invisible child must be rendered (Columns and Pile do
+            # not render their hidden children either, and the checks above demand exactly that) - so
+            # "not rendered at all" is accepted there; if it is rendered, it must still be at top_w_size.
+            if rendered != [tuple(tsize)] and not (0 in tsize and rendered == []):
                 rbad.append(("child-size", f"top widget rendered at {rendered!r}, top_w_size says {tsize!r}"))
             if canv.cols() != M or canv.rows() != N:
                 rbad.append(("canvas", f"canvas {canv.cols()}x{canv.rows()} for {(M, N)!r}"))
@@ -1273,6 +1287,25 @@ RULES = {
     "overlay-values": "Overlay.calculate_padding_filler + top_w_size: no negative dimension; l + child width + r == maxcol and t + child rows + b == maxrow with the child's real extent (a flow child's rows at the width it is handed); requested size / alignment clauses per axis (a fixed or flow child is clipped, never both clipped and padded)",
     "overlay-render": "Overlay.render for the configurations whose values pass: no exception, top widget rendered once at top_w_size, canvas maxcol x maxrow, top widget painted exactly where the margins say",
     "gridflow-layout": "GridFlow.render: every cell rendered at (min(cell_width, maxcol),) only, cells in reading order, as many per line as fit, h_sep blank columns / v_sep blank rows between, each line placed by the alignment % to within one, canvas exactly maxcol x needed rows",
+}
+
+
+# Checks that watch a *reading* beyond the property statement: reported as observations, never as
+# violations (triage).
+INFORMATIONAL = {
+    "C19/zero-amounts": (
+        "zero weights / zero given sizes are outside the statement, which speaks of 'given (>= 1), packed and "
+        "positively weighted children' (DESIGN section 6 C19: 'Not decided: zero weights / zero given sizes'); "
+        "observed: Columns.column_widths raises ZeroDivisionError when the only weighted columns that fit have "
+        "weight 0, e.g. Columns([('weight', 0, w), ('weight', 2, w)], dividechars=1).column_widths((2,))"
+    ),
+    "C19/padding-pack-min-width": (
+        "the statement says 'the requested size' without defining it for width='pack' together with min_width, "
+        "and DESIGN section 6 raises only relative widths to min_width; urwid uses min_width in pack mode as the "
+        "least width *offered* to the child for packing (padding_values: max(maxcol - left - right, min_width)), "
+        "not as a least width of the child - although Padding.pack(()) reports max(packed, min_width): "
+        "Padding(Text('x'), 'right', 'pack', min_width=5): pack(()) == (5, 1) but padding_values((10,)) == (9, 0)"
+    ),
 }
 
 
